@@ -86,10 +86,14 @@ def spec_check(table, n_node, out):
     return None
 
 
-def impl(table, lon, lat, order):
+def impl(table, lon, lat, order, supplied_edges=None):
     import uxarray as ux
     t = np.array(table, dtype=np.intp)
-    g = ux.Grid.from_topology(np.array(lon, float), np.array(lat, float), t.copy(), fill_value=FILL)
+    kw = {}
+    if supplied_edges is not None:
+        # a source that ships its own edge table (MPAS/ICON style): arbitrary edge order and pair orientation
+        kw["edge_node_connectivity"] = np.array(supplied_edges, dtype=np.intp)
+    g = ux.Grid.from_topology(np.array(lon, float), np.array(lat, float), t.copy(), fill_value=FILL, **kw)
     names = ["node_face_connectivity", "edge_face_connectivity", "face_face_connectivity", "hole_edge_indices"]
     # different orders of first access
     k = order % 4
@@ -173,14 +177,20 @@ def run_one(ck, c, idx, lines, keep):
     else:
         lon = list(np.linspace(-170, 170, n))
         lat = list(np.linspace(-80, 80, n))
+    sup = None
+    if c["kind"] == "mesh" and idx % 3 == 1:
+        rows, efm = mesh_facts(t)
+        sup = [list(k) if (idx + i) % 2 else [k[1], k[0]] for i, k in enumerate(sorted(efm))]
+        sup = sup[idx % len(sup):] + sup[:idx % len(sup)]
+        sup.reverse()
     try:
-        out, g = impl(t, lon, lat, idx)
+        out, g = impl(t, lon, lat, idx, sup)
     except Exception as ex:
         ck.fail("raises", {"table": t, "n_node": n, "order": idx % 4}, {"level": "grid"}, detail=repr(ex))
         return
     bad = spec_check(t, n, out)
     if bad:
-        ck.fail(bad, {"table": t, "n_node": n, "order": idx % 4}, {"level": "grid"},
+        ck.fail(bad, {"table": t, "n_node": n, "order": idx % 4, "supplied_edges": sup}, {"level": "grid", "supplied_edges": sup is not None},
                 detail=json.dumps({k: out[k] for k in ("edge_node", "node_face", "edge_face", "face_face", "holes")}))
     try:
         ef_b, nf_b, holes_b = impl_builders(t, n, out)
